@@ -85,6 +85,12 @@ Failing(h, e, fl) ==
                          ELSE IF a.op \in {"RefSites", "InversePositions"}      \* `subsites --ref-seq` / `--reverse`
                          THEN (IF R0.err THEN R0
                                ELSE CliOf("SelectSites", h[recv], Step(h, "SelectSites", recv, [sites |-> R0.ret.sites])))
+                         ELSE IF a.op = "InverseCoordinates"                      \* `subseq --reverse`: the complement of the window
+                         THEN (IF R0.err THEN R0
+                               ELSE IF Len(R0.ret.starts) = 0                    \* nothing left: an error or an empty result, not a crash
+                               THEN (IF e.kind = "err" THEN Fail(h[recv]) ELSE [Fail(h[recv]) EXCEPT !.err = FALSE, !.j = FALSE])
+                               ELSE CliOf("SelectSites", h[recv], Step(h, "SelectSites", recv,
+                                       [sites |-> SeqOfSet({i \in 0..(h[recv].len - 1) : i < a.a.start \/ i >= a.a.start + a.a.len})])))
                          ELSE IF a.op = "Split" THEN CliSplit(h[recv], a.a)
                          ELSE CliOf(a.op, h[recv], R0) IN
           [errClass  |-> (e.kind = "err") = R.err,
